@@ -250,6 +250,7 @@ func serverForwardRequests(
 
 	for {
 		// Remove hop-by-hop header and trailer fields.
+		req.Body = newTrailerFilteringBody(req.Body, req.Trailer, req.Header["Connection"])
 		removeConnectionSpecificFields(req.Header, req.Trailer)
 
 		// Remove the Upgrade header field from the request.
@@ -434,6 +435,7 @@ func serverForwardResponses(
 			}
 
 			// Remove hop-by-hop header and trailer fields.
+			resp.Body = newTrailerFilteringBody(resp.Body, resp.Trailer, resp.Header["Connection"])
 			removeConnectionSpecificFields(resp.Header, resp.Trailer)
 
 			// Write response.
@@ -550,7 +552,15 @@ func send502(w io.Writer) error {
 //
 //	Upgrade: HTTP/3.0
 func removeConnectionSpecificFields(header, trailer http.Header) {
-	for _, opts := range header["Connection"] {
+	connection := header["Connection"]
+	removeHopByHopFields(header, connection)
+	removeHopByHopFields(trailer, connection)
+}
+
+// removeHopByHopFields removes hop-by-hop fields from h, including but not limited to
+// those specified in connection, the values of the Connection header field.
+func removeHopByHopFields(h http.Header, connection []string) {
+	for _, opts := range connection {
 		var (
 			opt   string
 			found bool
@@ -564,8 +574,7 @@ func removeConnectionSpecificFields(header, trailer http.Header) {
 			switch canOpt {
 			case "Close", "Upgrade":
 			default:
-				delete(header, canOpt)
-				delete(trailer, canOpt)
+				delete(h, canOpt)
 			}
 
 			if !found {
@@ -574,15 +583,41 @@ func removeConnectionSpecificFields(header, trailer http.Header) {
 		}
 	}
 
-	delete(header, "Connection")
-	delete(header, "Proxy-Connection")
-	delete(header, "Keep-Alive")
-	delete(header, "Te")
-	delete(header, "Transfer-Encoding")
+	delete(h, "Connection")
+	delete(h, "Proxy-Connection")
+	delete(h, "Keep-Alive")
+	delete(h, "Te")
+	delete(h, "Transfer-Encoding")
 
-	delete(header, "Proxy-Authenticate")
-	delete(header, "Proxy-Authorization")
-	delete(header, "Proxy-Authentication-Info")
+	delete(h, "Proxy-Authenticate")
+	delete(h, "Proxy-Authorization")
+	delete(h, "Proxy-Authentication-Info")
+}
+
+// trailerFilteringBody wraps a message body and removes hop-by-hop fields from the trailer
+// when the body reaches EOF, which is when net/http fills in the received trailer fields.
+type trailerFilteringBody struct {
+	io.ReadCloser
+	trailer    http.Header
+	connection []string
+}
+
+// newTrailerFilteringBody returns body wrapped as a [*trailerFilteringBody],
+// or body itself if the message has no trailer.
+func newTrailerFilteringBody(body io.ReadCloser, trailer http.Header, connection []string) io.ReadCloser {
+	if trailer == nil {
+		return body
+	}
+	return &trailerFilteringBody{ReadCloser: body, trailer: trailer, connection: connection}
+}
+
+// Read implements [io.Reader].
+func (b *trailerFilteringBody) Read(p []byte) (n int, err error) {
+	n, err = b.ReadCloser.Read(p)
+	if err == io.EOF {
+		removeHopByHopFields(b.trailer, b.connection)
+	}
+	return n, err
 }
 
 // pipeClosingWriter passes writes to the underlying [*bufio.Writer] and closes the [*netio.PipeConn] on error.
